@@ -203,7 +203,20 @@ deriving Repr
 /-- iter.Close() -/
 def closeErr (q : QIter) : QErr := match q.err with | none => .nil | some e => .iter e
 
-/-- Query.Scan(dest...): `checkErrAndNotFound`, ONE Iter.Scan whose result is ignored, `iter.Close()`.
+/-- Iter.checkErrAndNotFound's loop (session.go:1683-1685, since the repair of KF-C15-4): while the page is empty,
+    without error, and announces more, the iterator BECOMES the next page's. `none` = a panic. The conveniences below
+    then look at `iter.err` / `iter.numRows == 0` of the page reached. -/
+def skipEmpty (fv : Nat) (autoPage : Bool) : List Bytes → QIter → Option (QIter × List Bytes)
+  | [], q => if !q.it.failed && q.it.numRows == 0 && q.more then some (exhaustedQ, []) else some (q, [])
+  | w :: ws, q =>
+    if !q.it.failed && q.it.numRows == 0 && q.more then
+      match step1 fv autoPage w with
+      | .iter q' => skipEmpty fv autoPage ws q'
+      | .again => skipEmpty fv autoPage ws q
+      | .crash => none
+    else some (q, w :: ws)
+
+/-- Query.Scan(dest...): `checkErrAndNotFound` (its loop is `skipEmpty`, applied by the caller), ONE Iter.Scan whose result is ignored, `iter.Close()`.
     `none` = a panic. (numRows > 0 and pos = 0: no page is fetched.) -/
 def queryScan (q : QIter) (dests : List Bool) : Option (List Call × QErr) :=
   if q.it.failed then some ([], closeErr q)
